@@ -90,8 +90,18 @@ func sends[T any](ch chan T) int { return 0 }
 
 // ---- C19: Karn's rule, acknowledgement decision ----
 
+// specOutstanding(a, tsn): the chunk with this TSN is in the inflight queue (sent, not yet cumulatively acknowledged).
+func specOutstanding(a *Association, tsn uint32) bool {
+	_, ok := a.inflightQueue.get(tsn)
+
+	return ok
+}
+
 //@ func Association.processSelectiveAck
+//@   requires#decoded-chunk selectiveAckChunk != nil
 //@   at call rtoManager.setNewRTT assert#karn-only-first-transmissions{C19} chunkPayload.nSent == 1
+//@   loop 1 atend assert#both-ends-of-every-gap-block-are-outstanding{C03} gap.start >= 1 && gap.start <= gap.end &&
+//@      specOutstanding(a, selectiveAckChunk.cumulativeTSNAck+uint32(gap.start)) && specOutstanding(a, selectiveAckChunk.cumulativeTSNAck+uint32(gap.end))
 
 //@ func Association.handleHeartbeatAck
 //@   requires#decoded-chunk c != nil
@@ -333,6 +343,7 @@ func specChunkWireSize(c *chunkPayloadData) int {
 //@   ensures#ssthresh-untouched{C10} a.ssthresh == old(a.ssthresh)
 
 //@ func Association.processFastRetransmission
+//@   loop 1 atend assert#a-third-miss-indication-enters-fast-recovery{C10} ok && c != nil && iterStart(c.missIndicator) == 2 && c.missIndicator == 3 ==> a.inFastRecovery
 //@   at store Association.ssthresh assert#fast-recovery-halves-ssthresh{C10} stored == max32(a.CWND()/2, 4*a.MTU())
 //@   at store Association.ssthresh assert#fast-recovery-entered-once{C10} a.inFastRecovery && stored == max32(a.CWND()/2, 4*a.MTU())
 //@   at call Association.setCWND assert#fast-recovery-cuts-cwnd-to-ssthresh{C10} arg1 == a.ssthresh && a.inFastRecovery
